@@ -37,9 +37,15 @@ def configs(tier, seed):
         cfgs.append(dict(n=n, k=rnd.randint(1 if action == "signal" else 0, n), action=action, others=rnd.randint(0, 4), ostate=rnd.choice(ostates),
                          load=rnd.choice(["idle", "busy"]), clock=rnd.choice(["system", "tsc"]), sig=sig, cycles=rnd.randint(1, 5) if action == "cycles" else 0,
                          victim=rnd.choice(["main", "thread"]) if action != "return" else "main"))
-    if tier == "quick":
-        # the enumerated part alternates between the two builds; quick keeps every second load variant of the enumeration
-        pass
+    for c in cfgs:
+        c.setdefault("big", 0)
+    # the last statement before the action is larger than the current queue buffer (fresh buffer, old one drained)
+    for k in range(1, N + 1):
+        for action, extra2 in [("stop", {}), ("exit", {}), ("return", {}), ("cycles", {"cycles": 2}), ("signal", {"sig": int(signal.SIGSEGV)}), ("signal", {"sig": int(signal.SIGTERM)})]:
+            for load in ("idle", "busy"):
+                c = dict(n=N, k=k, action=action, others=0, ostate="finished", load=load, clock="system", sig=0, cycles=0, victim="main", big=1)
+                c.update(extra2)
+                cfgs.append(c)
     return cfgs
 
 
@@ -70,7 +76,10 @@ def judge(c, rc, timed_out, d):
         return "child-did-not-reach-action", {"rc": rc}
     g_action = act[0]
     vlines = read_lines(os.path.join(d, "victim.log")) or []
-    vs = [l for l in vlines if l.startswith("V|")]
+    vs = ["|".join(l.split("|")[:2]) for l in vlines if l.startswith("V|")]
+    for l in vlines:
+        if l.startswith("V|") and l.count("|") == 2 and l.split("|")[2] != "x" * 200000:
+            return "big-statement-corrupt", {"len": len(l)}
     k, n = c["k"], c["n"]
     # ---- exit status
     if c["action"] == "signal" and c["sig"] in [int(s) for s in FATAL]:
@@ -86,12 +95,13 @@ def judge(c, rc, timed_out, d):
         key = "completed-statement-lost" if missing else ("statement-duplicated-or-reordered" if sorted(set(vs)) != sorted(vs) or vs != sorted(vs, key=lambda s: int(s[2:])) else "unexpected-statement")
         return key + ":" + c["action"], {"victim_log": vlines[-12:], "missing": missing[:8], "expected_count": len(want), "got_count": len(vs)}
     if c["action"] == "signal":
-        tail = vlines[len(vs):] if vlines[:len(vs)] == vs else [l for l in vlines if not l.startswith("V|")]
+        head = ["|".join(l.split("|")[:2]) for l in vlines[:len(vs)]]
+        tail = vlines[len(vs):] if head == vs else [l for l in vlines if not l.startswith("V|")]
         if not any("Received signal" in l for l in tail):
             return "signal-notice-missing", {"victim_log": vlines[-6:]}
         if c["sig"] in [int(s) for s in FATAL] and not any("terminated unexpectedly" in l for l in tail):
             return "termination-notice-missing", {"victim_log": vlines[-6:]}
-        if vlines and vlines[:len(vs)] != vs:
+        if vlines and head != vs:
             return "signal-notice-before-earlier-statements", {"victim_log": vlines[-10:]}
     # ---- backlog on the slow sink (logged by the victim before its own statements)
     if c["load"] == "busy":
@@ -116,7 +126,7 @@ def judge(c, rc, timed_out, d):
 def run_child(exe, c, d):
     os.makedirs(d, exist_ok=True)
     args = [exe, "--dir", d]
-    for k in ("n", "k", "action", "others", "ostate", "load", "clock", "sig", "cycles", "victim"):
+    for k in ("n", "k", "action", "others", "ostate", "load", "clock", "sig", "cycles", "victim", "big"):
         args += ["--" + k, str(c[k])]
 
     def pre():
@@ -161,7 +171,7 @@ def run(tier, seed):
         b = col.builds.setdefault(variant, {"processes": 0, "sanitizer_or_crash_reports": 0})
         b["processes"] += 1
         if reached:
-            tuples.add((c["action"], c["k"], c["sig"], c["clock"], c["load"], c["others"], c["ostate"], c["victim"], c["cycles"], c["n"]))
+            tuples.add((c["action"], c["k"], c["sig"], c["clock"], c["load"], c["others"], c["ostate"], c["victim"], c["cycles"], c["n"], c["big"]))
             statements += (c["k"] if c["action"] != "cycles" else c["n"]) + (150 if c["load"] == "busy" else 0)
         if key:
             w = dict(wit)
